@@ -133,7 +133,9 @@ func SharedSK() {
 		}
 		s.Close()
 	}
-	if cache != env.CacheNone {
+	if cache != env.CacheNone && e.Store.Rows(env.SKID()) == 1 {
+		// (one system key in play: after a rotation two generations are in use, each unwrapped on its own account,
+		// and a capacity-1 system-key cache cannot hold both)
 		vx.Assert("C20.sk_unwrapped_at_most_once_per_interval", e.KMS.Decs-d0 <= 1)
 	}
 	vx.Reach("C20.shared_end")
@@ -159,7 +161,9 @@ func SharedSKConcurrent() {
 		s.Close()
 	}
 	f0.Close()
-	f := e.Factory(e.Policy(polc, vx.Choice("cache", vx.Param("caches"))))
+	// caching configurations under which the working set (two intermediate keys, one system key) fits
+	cfgs := []int{env.CacheDefault, env.CacheSLRU2, env.CacheSessionSLRU1}
+	f := e.Factory(e.Policy(polc, cfgs[vx.Choice("cache", vx.Param("caches"))]))
 	sess := make([]*ae.Session, len(parts))
 	for i, p := range parts {
 		sess[i], _ = f.GetSession(p)
@@ -194,4 +198,41 @@ func SharedSKConcurrent() {
 	vx.ClockFreeze(true)
 	round("stale")
 	vx.Reach("C20.concurrent_end")
+}
+
+// SharedFits: a factory-wide (shared) intermediate-key cache whose configured capacity holds one key per partition in
+// use, next to a small system-key cache (a service has one system key). Once every partition is warm, repeating an
+// encrypt and a decrypt on each of them inside the interval makes no metastore and no KMS call: the working set fits
+// the cache as configured.
+func SharedFits() {
+	e := env.New()
+	polc := env.Policies[0]
+	pol := e.Policy(polc, env.CacheDefault)
+	ae.WithSharedIntermediateKeyCache(3)(pol)
+	pol.IntermediateKeyCacheEvictionPolicy = []string{"lru", "slru", "lfu"}[vx.Choice("ikpolicy", vx.Param("ikpolicies"))]
+	pol.SystemKeyCacheMaxSize = 1
+	pol.SystemKeyCacheEvictionPolicy = "lru"
+	f := e.Factory(pol)
+	vx.Now()
+	vx.ClockFreeze(true)
+	parts := []string{"p0", "p1", "p2"}
+	sess := make([]*ae.Session, len(parts))
+	recs := make([]*ae.DataRowRecord, len(parts))
+	for i, p := range parts {
+		sess[i], _ = f.GetSession(p)
+		r, err := sess[i].Encrypt(env.Ctx, []byte{byte(70 + i)})
+		vx.Assert("C20.fits_warm_ok", err == nil)
+		recs[i] = r
+	}
+	for round := 0; round < 2; round++ {
+		for i := range parts {
+			m0, k0 := e.Store.Calls(), e.KMS.Encs+e.KMS.Decs
+			_, err := sess[i].Encrypt(env.Ctx, []byte{1})
+			vx.Assert("C20.fits_repeat_encrypt_ok", err == nil)
+			out, err := sess[i].Decrypt(env.Ctx, *recs[i])
+			vx.Assert("C20.fits_repeat_decrypt_ok", vx.And(err == nil, vx.BytesEq(out, []byte{byte(70 + i)})))
+			vx.Assert("C20.working_set_that_fits_makes_no_external_calls", e.Store.Calls() == m0 && e.KMS.Encs+e.KMS.Decs == k0)
+		}
+	}
+	vx.Reach("C20.fits_end")
 }
